@@ -22,12 +22,14 @@ Inductive wres := WOk | WExists | WIncompatible.
 Definition wres_eqb (a b : wres) : bool :=
   match a, b with WOk, WOk | WExists, WExists | WIncompatible, WIncompatible => true | _, _ => false end.
 
-(* JokerSamples.write(file, overwrite, append) *)
+(* JokerSamples.write(file, overwrite, append).  With both flags the existing table is replaced (astropy's documented meaning of
+   append=True, overwrite=True: only the table, not the file, is overwritten -- and a samples file holds this one table) *)
 Definition write (ow app : bool) (t : tbl) (s : store) : store * wres :=
   match s with
   | None => (Some t, WOk)
   | Some old =>
-      if app then
+      if app && ow then (Some t, WOk)
+      else if app then
         if hdr_eqb (t_hdr old) (t_hdr t) && meta_eqb (t_meta old) (t_meta t)
         then (Some (mk_tbl (t_hdr old) (t_meta old) (t_rows old ++ t_rows t)), WOk)
         else (s, WIncompatible)                       (* refused, file untouched *)
